@@ -14,7 +14,10 @@ META = {
                  "methods, hence equal name/message/source/tag/stack for all arguments; clone and print "
                  "tag laws; both wiring tables regenerated on every run (go/ast translator: gerror.go and "
                  "the code the real CLI generates for every struct of a farm) and checked equal to the "
-                 "model by computation; in-kernel correspondence on the farm (0-6 extra fields, all tag "
+                 "model by computation; the print list of the generated Error() and the field copies of "
+                 "toPrimaryType of every farm struct regenerated as canonical descriptions (selectors "
+                 "resolved against the struct's own members) and compared with the descriptions proved "
+                 "to print/clone as the model; in-kernel correspondence on the farm (0-6 extra fields, all tag "
                  "kinds, with/without -skipConvertGen, all 19 methods, base vs generated from one call site)",
     "design_ref": "DESIGN.md §4 C09",
     "level_text": "Proof: GErrExtProofs.v shows that the wiring table of the generated methods equals that "
@@ -25,10 +28,16 @@ META = {
                   "along chains); and that the generated Error() is the base prefix, then exactly the "
                   "print-tagged fields (each once, ordered by field name, under the tag name or, for "
                   "'_', the field name), then the message (Props/C09.v, closed under the global "
-                  "context). The pinned template's SrcS defect is kept as C09_wiring_orig_refuted / "
+                  "context); a declarative print specification (some name-ordered arrangement of exactly the "
+                  "print-tagged fields) with a uniqueness theorem, so that comparing an observed head with "
+                  "the model's text decides it (C09_print_spec_decided); the base part of the rendering "
+                  "never reads an extension field, also one named Name/Source/Message (C09_desc_base_part). "
+                  "The pinned template's SrcS defect is kept as C09_wiring_orig_refuted / "
                   "C09_fields_orig_refuted. Tied to the source by regenerating both wiring tables from "
                   "gerror.go and from the output of the current gerror CLI on every farm struct (tie by "
-                  "vm_compute) and by running base and generated methods side by side on the farm and "
+                  "vm_compute), by regenerating the Error() print list and the toPrimaryType copies of every "
+                  "farm struct (tie with expected_desc / expected_primary, C09_desc_head, C09_desc_primary) "
+                  "and by running base and generated methods side by side on the farm and "
                   "judging every observation inside Coq.",
     "level_note": "Trusted: Coq 8.16.1 kernel + vm_compute; hand-written model (fidelity checked by the two "
                   "ties); fmt's %v rendering of field values and fmt.Sprintf of formats (recorded, enter "
@@ -53,7 +62,7 @@ CASE_T, JUDGE = "c09_case", "c09_judge"
 CANARY = ("{| n_fields := []; n_name := [69]%N; n_msg := []; n_src := []; "
           "n_steps := [(MSrcS, mkA [115]%N [] [] VNil [] 0 [109]%N)]; "
           "n_base := [(mkV [69]%N [] [115]%N [] (Some 0%N))]; n_gen := [(mkV [69]%N [] [109]%N [] (Some 0%N))]; "
-          "n_heads := [[]]; n_suffix_ok := [true]; n_fvals := [[]] |}")
+          "n_heads := [[]]; n_bheads := [[]]; n_suffix_ok := [true]; n_fvals := [[]] |}")
 
 
 def struct_source(d):
@@ -165,6 +174,48 @@ def ties(ctx, farm):
     return broken
 
 
+def gal_str(s):
+    """a Go string as a GErrStr.str literal (list of code points)"""
+    return "([" + ";".join(str(ord(c)) for c in s) + "]%N : str)" if s else "([] : str)"
+
+
+def desc_ties(ctx, farm):
+    """(T) for the rest of the generated code: the print list of Error() and the field copies of
+    toPrimaryType of EVERY farm struct are regenerated from the CLI's output (selectors resolved
+    against the struct's own members) and compared, by computation, with expected_desc /
+    expected_primary of the struct's declared fields (GErrExtDesc.v; Props/C09.v C09_desc_head,
+    C09_desc_primary show that such a type prints and clones as the model says)"""
+    broken = []
+    d = farm["dir"]
+    parts, n = [], 0
+    for kind, gens, src in (("gen", ["farm_gen.gerror.go"], "farm_gen.go"), ("skip", ["farm_skip.gerror.go"], "farm_skip.go")):
+        paths = ",".join(os.path.join(d, f) for f in gens)
+        for t in farm["names"][kind]:
+            rc, txt = gl.xlate(ctx, ["desc", "-gen", paths, "-src", os.path.join(d, src), "-type", t, "-name", t])
+            if rc != 0:
+                broken.append(("Error()/toPrimaryType generated for struct %s are not of a translatable shape" % t, txt))
+                continue
+            fields = farm["defs"][t].get("fields") or []
+            fl = "; ".join("mkF %s %s %s [%s] [] []" % (gal_str(f["name"]), "true" if f["tagged"] else "false", gal_str(f["tagname"]),
+                                                     "; ".join(gal_str(o) for o in (f.get("opts") or []))) for f in fields)
+            parts.append(txt + "Definition fields_%s : list xfield := [%s].\n" % (t, fl) +
+                         "Lemma tie_desc_%s : desc_eqb gen_error_desc_%s (expected_desc fields_%s) = true\n"
+                         "  /\\ names_eqb gen_primary_%s (expected_primary fields_%s) = true.\n"
+                         "Proof. vm_compute. split; reflexivity. Qed.\n" % (t, t, t, t, t))
+            n += 1
+    v = ("From Coq Require Import NArith List Bool.\nImport ListNotations.\n"
+         "From GT Require Import Base.GErrStr GErrModel GErrExtDesc.\n" + "\n".join(parts))
+    rc, out = ctx.coq_eval("GErrDescGen_C09", v, timeout=600)
+    if rc != 0:
+        broken.append(("print list of the generated Error() or field copies of toPrimaryType (template gerror.gotmpl read through "
+                       "the CLI's output) differ from GErrExtDesc.expected_desc / expected_primary", out))
+        ctx.cov["tie_T_desc"] = "BROKEN"
+    else:
+        ctx.cov["tie_T_desc"] = ("Error() print list and toPrimaryType copies of all %d farm structs = expected_desc / expected_primary "
+                                 "of their declared fields, by vm_compute" % n)
+    return broken
+
+
 def features(j, code):
     s = j["steps"][-1] if j["steps"] else {}
     what = []
@@ -185,7 +236,7 @@ def features(j, code):
 
 def normalise(jsons):
     for j in jsons:
-        for k in ("fields", "steps", "base", "gen", "heads", "suffix_ok", "fvals", "fac_vals", "zero_vals"):
+        for k in ("fields", "steps", "base", "gen", "heads", "bheads", "suffix_ok", "fvals", "fac_vals", "zero_vals"):
             j[k] = j.get(k) or []
         for f in j["fields"]:
             f["opts"] = f.get("opts") or []
@@ -231,7 +282,7 @@ def judge_and_report(ctx, rp, binp, terms, jsons, quick, tag, seen, only_v1=Fals
             rep = {"case": j,
                    "verdict": "generated method's result differs from the base method's, or clone/print law violated",
                    "replay_cmd": "./check C09 --replay <this file>"}
-            if rp.failing(rep, features(j, code)) == "violation" and j["type"][0] in "GKO":
+            if rp.failing(rep, features(j, code)) == "violation" and j["type"][0] in "GKOHR":
                 # only replayable on farms that contain the struct: keep fixed-farm structs only
                 gl.write_corpus_hit("C09", {k: j[k] for k in ("type", "name", "msg", "src", "steps")})
         elif not only_v1 and len(rp.pending) < 8:
@@ -245,7 +296,7 @@ def run(ctx):
     ctx.trusted = TRUSTED
     ctx.assumptions = [
         "extension structs embed gerror.GError directly and are used through factories made with FactoryOf",
-        "field names do not shadow GError's own fields/methods; with -skipConvertGen the user-written Convert/ConvertS have the documented body",
+        "extension fields may be named like GError's exported fields (Name, Source, Message: they shadow the promoted field; covered by the farm); a field or method named like a method of gerror.Error (ErrSource, Is, Unwrap, Base, ...) makes the struct stop implementing gerror.Error or clash with the generated methods, i.e. it is not an extension type at all; with -skipConvertGen the user-written Convert/ConvertS have the documented body",
         "Convert/ConvertS of values that already are gerror errors (returned unchanged) are covered by C06; here their argument is nil or foreign",
         "Error() is compared up to the stack text: head = text before \"\\n\" + stack.String(), the stack text itself is only required to follow",
     ]
@@ -257,7 +308,7 @@ def run(ctx):
         rp.defer("generator farm: CLI run / build of generated code against the current tree", err, "build")
         rp.flush()
         return
-    for what, detail in ties(ctx, farm):
+    for what, detail in ties(ctx, farm) + desc_ties(ctx, farm):
         rp.defer("tie T: " + what, detail, "tie")
     binp = farm["bin"]
     # structs whose generated code does not compile: the struct definition is the failing input
